@@ -481,6 +481,22 @@ def a_direct(s, a):
     return [r[0], r[1].value if isinstance(r[1], Key) else r[1]]
 
 
+def pre_scale(s, a):
+    """L1 precondition: a fractional factor is only legal when it keeps every tick an integer (the library's tick domain is
+    the integers; scale(0.5) on an odd wait would create half ticks, which no view conversion is required to preserve)."""
+    f = a["factor"]
+    if f >= 1:
+        return True
+    try:
+        r = observe.clone_seq(s).rel._messages
+    except Exception:
+        return True
+    inv = round(1 / f)
+    return all((m.time % inv) == 0 for m in r if m.message_type is MT.WAIT)
+
+
+PRECOND = {"scale": pre_scale}
+
 # ------------------------------------------------------------------ the table
 
 # name -> (kind, generator, applier, weight, sorts_abs_in_place)
